@@ -18,7 +18,11 @@ type Tok struct {
 }
 
 // Tokens flattens a form into source tokens. short: use ' ` ~ ~@ spellings.
-func Tokens(v val.V, short bool) []Tok {
+func Tokens(v val.V, short bool) []Tok { return TokensRaw(v, short, false) }
+
+// TokensRaw is Tokens; with raw, string literals that hold a line break are written in raw (¬…¬) form with the
+// line break as it is, so that the token spans several source lines.
+func TokensRaw(v val.V, short, raw bool) []Tok {
 	out := []Tok{}
 	var w func(v val.V)
 	w = func(v val.V) {
@@ -60,6 +64,10 @@ func Tokens(v val.V, short bool) []Tok {
 			}
 			out = append(out, Tok{Text: "}", Close: true})
 		default:
+			if raw && v.K == val.Str && strings.ContainsAny(v.S, "\n\r") && !strings.Contains(v.S, "¬") && !strings.ContainsRune(v.S, 0) {
+				out = append(out, Tok{Text: "¬" + v.S + "¬"})
+				return
+			}
 			out = append(out, Tok{Text: val.Literal(v)})
 		}
 	}
